@@ -40,7 +40,7 @@ type Project struct {
 
 // Job is one request to a worker.
 type Job struct {
-	Op       string   `json:"op"` // root | explore | replay | free
+	Op       string   `json:"op"` // root | explore | replay | free | first
 	Proj     *Project `json:"proj"`
 	RootSig  string   `json:"rootsig,omitempty"` // expected signature of the default trace (cross-worker R3)
 	RootHash string   `json:"roothash,omitempty"`
@@ -80,6 +80,9 @@ type Reply struct {
 	RootSteps int64  `json:"rootsteps,omitempty"`
 	Gor       int    `json:"goroutines,omitempty"`
 	CPUms     int64  `json:"cpums,omitempty"`
+	// Nondet (set by the coordinator): the project's output varies between fresh processes
+	// under the same schedule; it is reported, not explored
+	Nondet bool `json:"nondet,omitempty"`
 }
 
 type workerState struct {
@@ -359,6 +362,20 @@ func (w *workerState) handle(j *Job) (rep *Reply) {
 	}()
 	if j.Op == "free" {
 		return w.free(j)
+	}
+	if j.Op == "first" {
+		// one execution of the default schedule in this (fresh) process, no self-test: used by the
+		// coordinator to tell a compiler whose output varies from run to run from state that
+		// leaks between executions inside one worker
+		pj, _ := json.Marshal(j.Proj)
+		w.proj, w.projJSON = j.Proj, string(pj)+"#first"
+		w.sent = map[string]bool{}
+		w.maxSteps = 0
+		e, err := w.execute(nil)
+		if err != nil {
+			return &Reply{Err: err.Error()}
+		}
+		return &Reply{Complete: true, Seen: []Seen{{Hash: e.hash, N: 1, Text: e.obs}}}
 	}
 	if err := w.load(j.Proj); err != nil {
 		return &Reply{Err: err.Error()}
